@@ -775,7 +775,14 @@ class C20(PropCheck):
                         srcs.append(('local', local_name))
                     else:
                         srcs.append(('local', 'No Such Font C20'))
-                faces.append((key, srcs))
+                # a rule identical to an earlier one (same family, same src list) is the same rule for add_font_face
+                # (its file name hashes family, descriptors and src): it is the model's "rule written before"
+                twin = next(((k2, s2) for k2, s2 in faces if families.get(k2) == families[key] and s2 == srcs), None)
+                if twin is not None:
+                    del families[key]
+                    faces.append(twin)
+                else:
+                    faces.append((key, srcs))
             recorder = R.Recorder(table)
             outs, failing = self.run_font_case(config, recorder, faces, families)
             faces_wire = [[key, [font_src_sx(s, local_name, local_uri) for s in srcs]] for key, srcs in faces]
